@@ -18,7 +18,8 @@ inductive Parsed where
   | dec (neg : Bool) (n : Nat) (e : Int)     -- (-1)^neg · n · 10^e
 deriving Repr, DecidableEq
 
-def isDigit (c : Char) : Bool := '0' ≤ c ∧ c ≤ '9'
+/-- `'0' ≤ c ≤ '9'` -/
+def isDigit (c : Char) : Bool := 48 ≤ c.toNat && c.toNat ≤ 57
 def digitVal (c : Char) : Nat := c.toNat - 48
 
 /-- longest prefix of decimal digits: (value so far, number of digits consumed, rest) -/
@@ -34,6 +35,11 @@ def dropWs : List Char → List Char
   | c :: cs => if isWs c then dropWs cs else c :: cs
   | [] => []
 
+/-- optional sign -/
+def splitSign : List Char → Bool × List Char
+  | [] => (false, [])
+  | c :: t => if c = '-' then (true, t) else if c = '+' then (false, t) else (false, c :: t)
+
 /-- optional exponent part; an `e` not followed by a valid exponent is *not* consumed by `strtod`, so the token
 is then not a number (`none`) -/
 def parseExp (rest : List Char) : Option Int :=
@@ -41,32 +47,33 @@ def parseExp (rest : List Char) : Option Int :=
   | [] => some 0
   | c :: cs =>
     if c = 'e' ∨ c = 'E' then
-      let (neg, ds) := match cs with
-        | '-' :: t => (true, t)
-        | '+' :: t => (false, t)
-        | t => (false, t)
-      let (v, cnt, rest') := takeDigits ds 0 0
-      if cnt = 0 ∨ rest' ≠ [] then none else some (if neg then -(v : Int) else (v : Int))
+      let sg := splitSign cs
+      let r := takeDigits sg.2 0 0
+      if r.2.1 = 0 ∨ r.2.2 ≠ [] then none else some (if sg.1 then -(r.1 : Int) else (r.1 : Int))
     else none
+
+/-- digits with an optional fraction: (value of all digits, number of fraction digits, number of digits, rest) -/
+def parseMantissa (s : List Char) : Nat × Nat × Nat × List Char :=
+  let r1 := takeDigits s 0 0
+  match r1.2.2 with
+  | [] => (r1.1, 0, r1.2.1, [])
+  | c :: t =>
+    if c = '.' then
+      let r2 := takeDigits t r1.1 0
+      (r2.1, r2.2.1, r1.2.1 + r2.2.1, r2.2.2)
+    else (r1.1, 0, r1.2.1, c :: t)
 
 /-- `strtod` consuming the whole token, exact -/
 def parseNum (s : List Char) : Option Parsed :=
-  let s := dropWs s
-  let (neg, s) := match s with
-    | '-' :: t => (true, t)
-    | '+' :: t => (false, t)
-    | t => (false, t)
-  let w := s.map lower
-  if w = "inf".toList ∨ w = "infinity".toList then some (.inf neg)
-  else if w = "nan".toList then some (.nan neg)
+  let sg := splitSign (dropWs s)
+  let w := sg.2.map lower
+  if w = "inf".toList ∨ w = "infinity".toList then some (.inf sg.1)
+  else if w = "nan".toList then some (.nan sg.1)
   else
-    let (ip, icnt, r1) := takeDigits s 0 0
-    let (fp, fcnt, r2) := match r1 with
-      | '.' :: t => let (v, c, r) := takeDigits t ip 0; (v, c, r)
-      | t => (ip, 0, t)
-    if icnt = 0 ∧ fcnt = 0 then none
-    else match parseExp r2 with
-      | some e => some (.dec neg fp (e - fcnt))
+    let m := parseMantissa sg.2
+    if m.2.2.1 = 0 then none
+    else match parseExp m.2.2.2 with
+      | some e => some (.dec sg.1 m.1 (e - m.2.1))
       | none => none
 
 /-! ### round to nearest, ties to even -/
